@@ -1275,7 +1275,7 @@ impl<K: Hash + Eq, V: Clone, S> Cache<K, V, S> {
 }
 
 // ---------------- src/sync/mapref.rs and src/sync/iter.rs: iteration over the concurrent cache (C01, C05, C06, C07) ----------------
-//@@ STRUCT file=src/sync/mapref.rs name=EntryRef
+//@@ STRUCT file=src/sync/mapref.rs name=EntryRef degrade=1
 #[verifier::reject_recursive_types(K)]
 #[verifier::reject_recursive_types(V)]
 pub struct EntryRef<'a, K, V>(DashMapRef<'a, K, V>);
@@ -1336,7 +1336,7 @@ where
 //@@ END
 }
 
-//@@ STRUCT file=src/sync/iter.rs name=Iter
+//@@ STRUCT file=src/sync/iter.rs name=Iter degrade=1
 #[verifier::reject_recursive_types(K)]
 #[verifier::reject_recursive_types(V)]
 #[verifier::reject_recursive_types(S)]
